@@ -164,9 +164,10 @@ class Interp:
                     self.by_closure[m.group(1)] = it
                 continue
             if impl:
-                self.by_key[(impl[0], impl[1], it.last)] = it
+                it.key = (impl[0], impl[1], it.last)
             else:
-                self.by_key[(None, None, it.last)] = it
+                it.key = (None, None, it.last)
+            self.by_key[it.key] = it
         self.memo = {}
         self.next_cell = 1
         self.fresh_n = 0
@@ -966,7 +967,7 @@ class Interp:
         if self.depth > self.max_depth:
             raise EngineError('call depth bound exceeded in ' + item.last)
         self.depth += 1
-        self.call_stack.append((item.last, args))
+        self.call_stack.append((getattr(item, 'key', None), args))
         try:
             return self._exec_body(item, args, mem)
         finally:
@@ -1225,10 +1226,6 @@ class Interp:
         return type(v).__name__
 
     def dispatch(self, fr, ck, args, term):
-        # 1. harness hooks
-        h = self.hooks.get(ck.method) if ck.trait is None else None
-        if h is not None and (ck.selfty, ck.method) in self.hooks.get('__keys__', ()):
-            return self.wrap_model_result(h(self, fr, args), fr)
         # 2. crate function by static key
         if ck.trait is None:
             it = None
@@ -1348,7 +1345,7 @@ class Interp:
         return tuple(out)
 
     def call_item(self, item, args, mem):
-        hook = self.hooks.get(item.last)
+        hook = self.hooks.get(getattr(item, 'key', None)) if self.hooks else None
         if hook is not None:
             fr = Frame(item, mem)
             r = hook(self, fr, args)
